@@ -75,6 +75,8 @@ public:
     if (_data == other._embedded) {
       _data = _embedded;
     }
+
+    other.reset();
   }
 
   inline void reset() noexcept {
@@ -164,7 +166,7 @@ public:
     : ArenaHashBase() {}
 
   ASMJIT_INLINE_NODEBUG ArenaHash(ArenaHash&& other) noexcept
-    : ArenaHash(other) {}
+    : ArenaHashBase(std::move(other)) {}
 
   //! \}
 
